@@ -1,10 +1,6 @@
 package variable
 
 import (
-	"fmt"
-
-	"net/netip"
-
 	"github.com/pkg/errors"
 	"github.com/ysugimoto/falco/v2/interpreter/context"
 	"github.com/ysugimoto/falco/v2/interpreter/value"
@@ -28,13 +24,11 @@ func (v *HashScopeVariables) Get(s context.Scope, name string) (value.Value, err
 	case REQ_HASH:
 		return v.ctx.RequestHash, nil
 	case REQ_IS_IPV6:
-		parsed, err := netip.ParseAddr(v.ctx.Request.RemoteAddr)
+		is6, err := isRemoteAddrIPv6(v.ctx.Request.RemoteAddr)
 		if err != nil {
-			return value.Null, errors.WithStack(fmt.Errorf(
-				"could not parse remote address",
-			))
+			return value.Null, errors.WithStack(err)
 		}
-		return &value.Boolean{Value: parsed.Is6()}, nil
+		return &value.Boolean{Value: is6}, nil
 
 	case REQ_IS_PURGE:
 		return &value.Boolean{Value: v.ctx.Request.Method == PURGE}, nil
